@@ -74,7 +74,8 @@ def build(rng, casedir, index, nrec=None, untagged=True, force_all_known=False, 
     w.mode = mode or rng.choice(["plain", "plain", "bgzf", "pysam"])
     w.layout = layout or rng.choice(["standard", "tiny", "line_start"])
     w.gaf = os.path.join(casedir, "in.gaf" + ("" if w.mode == "plain" else ".gz"))
-    ggaf.write_gaf(w.gaf, w.lines, mode=w.mode, rng=rng, layout=w.layout)
+    w.final_newline = rng.random() >= 0.15  # a last line without a line terminator is still a record
+    ggaf.write_gaf(w.gaf, w.lines, mode=w.mode, rng=rng, layout=w.layout, final_newline=w.final_newline)
     return w
 
 
@@ -166,9 +167,20 @@ def post_process_alignment(line, nodes, offset, result):
 def install_sort_contracts():
     from gaftools.cli import sort
     import inspect
-    _ORIG["compare_gaf"] = inspect.unwrap(sort.compare_gaf)
-    M.attach(sort, "compare_gaf", post=post_compare_gaf)
-    M.attach(sort, "process_alignment", post=post_process_alignment)
+    if hasattr(sort, "compare_gaf"):
+        _ORIG["compare_gaf"] = inspect.unwrap(sort.compare_gaf)
+        M.attach(sort, "compare_gaf", post=post_compare_gaf)
+    else:
+        # the sort no longer uses a comparator function (e.g. a key function): the antisymmetry /
+        # transitivity monitor has nothing to observe; the boundary order oracle still decides C08
+        M.hit("comparator_function_absent")
+        M.hit("post:compare_gaf")
+        M.hit("transitivity_triples")
+    if hasattr(sort, "process_alignment"):
+        M.attach(sort, "process_alignment", post=post_process_alignment)
+    else:
+        M.hit("process_alignment_function_absent")
+        M.hit("post:process_alignment")
     del _seen[:]
 
 
